@@ -336,6 +336,18 @@ fn mi_bin_from_size(size: usize) -> usize {
     bin as usize
 }
 
+/// Verification hook: the size-class function and the size-class table.
+#[cfg(feature = "mmtk_verif")]
+pub(crate) fn verif_mi_bin_from_size(size: usize) -> usize {
+    mi_bin_from_size(size)
+}
+
+/// Verification hook: cell sizes of all bins (index 0 is the reserved empty bin).
+#[cfg(feature = "mmtk_verif")]
+pub(crate) fn verif_bin_sizes() -> Vec<usize> {
+    new_empty_block_lists().iter().map(|l| l.size).collect()
+}
+
 #[cfg(test)]
 mod tests {
     use super::*;
